@@ -9,7 +9,7 @@ RULE = ("pairs and chains (1-3 merges) of plain data trees over a 5-key alphabet
         "mutations that force shape conflicts at the same key (primitive/object/list/nil/empty x same), unequal list lengths; five "
         "global policies; source given as generic map, typed map/slice/array, pointer, struct (reflect.StructOf) or *Config; result "
         "observed by Unpack into map[string]interface{} / []interface{}. Oracle: Spec.C01.merge (union of dictionaries, right wins, "
-        "nil keeps containers, list policy), empty containers = nil. Non-trivial: both sides non-empty and sharing a key or both "
+        "nil keeps containers, list policy), empty containers = nil. Plus: *Config sources whose objects lost all their settings again (empty, non-nil dictionaries), a list doubled by a self-merge followed by index-wise merges naming one element. Non-trivial: both sides non-empty and sharing a key or both "
         "lists. Distinct by (policy, representation, multiset of per-key conflict kinds, list-length relation).")
 TRUSTED_BASE = ["Lean 4 kernel", "extractor: configHandling enumeration order",
                 "Model/Merge.lean, Normalize.lean transcribe merge.go (differential check)",
